@@ -279,10 +279,11 @@ theorem gen_logZ_correct (d : Dom) (cliques : List Clique) (t : Tree) (order : L
   rw [gen_logZ cliques order pots h1 h3 h4]
   exact Sem.BP.logZ_correct d cliques t order pots hok
 
-/-- **C01 `bp_marginals` for the GENERATED `belief_propagation`**: for every junction tree, every accepted message schedule,
-every nonnegative potential and every total, each clique table of the dictionary the translated source returns is
-`total · marginal / Z` of the product of the potentials -/
-theorem gen_bp_marginals (d : Dom) (cliques : List Clique) (t : Tree) (order : List (Clique × Clique))
+/-- the field identity behind `gen_bp_marginals`, for EVERY `total : K` (no sign hypothesis): at `LogOf K` the source's
+`np.log(total)` is read as `id` on the exp-space carrier, so `total · marginal / Z` is plain field algebra.  Only `0 < total`
+corresponds to the code (`np.log` of a negative total is `nan`; the model then returns negative "marginals"); this form is kept for
+callers whose own statement carries the sign condition separately (C08E). -/
+theorem gen_bp_marginals_anyTotal (d : Dom) (cliques : List Clique) (t : Tree) (order : List (Clique × Clique))
     (pots : CliqueVec (LogOf K)) (hok : ModelOK d cliques t order pots) (total : LogOf K)
     (hZ : partition d pots ≠ 0) (c : Clique) (hc : c ∈ cliques) (σ : Attr → Nat) (hσ : d.Valid σ) :
     ((GMG.beliefPropagation cliques order pots total).get c).dom.attrs = (pots.get c).dom.attrs ∧
@@ -292,11 +293,22 @@ theorem gen_bp_marginals (d : Dom) (cliques : List Clique) (t : Tree) (order : L
   rw [gen_beliefPropagation_get cliques order pots total h1 h3 h4 h2 c hc]
   exact Sem.BP.bp_marginals d cliques t order pots hok total hZ c hc σ hσ
 
+/-- **C01 `bp_marginals` for the GENERATED `belief_propagation`**: for every junction tree, every accepted message schedule,
+every nonnegative potential and every POSITIVE total, each clique table of the dictionary the translated source returns is
+`total · marginal / Z` of the product of the potentials (`0 < total`: see `C01.bp_marginals`; not used by the proof) -/
+theorem gen_bp_marginals (d : Dom) (cliques : List Clique) (t : Tree) (order : List (Clique × Clique))
+    (pots : CliqueVec (LogOf K)) (hok : ModelOK d cliques t order pots) (total : LogOf K)
+    (hZ : partition d pots ≠ 0) (_htot : 0 < total.v) (c : Clique) (hc : c ∈ cliques) (σ : Attr → Nat) (hσ : d.Valid σ) :
+    ((GMG.beliefPropagation cliques order pots total).get c).dom.attrs = (pots.get c).dom.attrs ∧
+    (((GMG.beliefPropagation cliques order pots total).get c).sem σ).v
+      = total.v * marginal d pots c σ / partition d pots :=
+  gen_bp_marginals_anyTotal d cliques t order pots hok total hZ c hc σ hσ
+
 /-- the hypotheses are satisfiable: the two-clique example model of `PGM/Proofs/ExactDisjoint.lean` -/
-example (total : LogOf ℝ) (hZ : partition Oracle.exDom (ExactDisjoint.expPots Oracle.exPots) ≠ 0) (c : Clique)
+example (total : LogOf ℝ) (hZ : partition Oracle.exDom (ExactDisjoint.expPots Oracle.exPots) ≠ 0) (htot : 0 < total.v) (c : Clique)
     (hc : c ∈ Oracle.exCliques) :=
   gen_bp_marginals Oracle.exDom Oracle.exCliques ExactDisjoint.exTree ExactDisjoint.exOrder
-    (ExactDisjoint.expPots Oracle.exPots) ExactDisjoint.ex_modelOK total hZ c hc (fun _ => 0) ExactDisjoint.ex_valid
+    (ExactDisjoint.expPots Oracle.exPots) ExactDisjoint.ex_modelOK total hZ htot c hc (fun _ => 0) ExactDisjoint.ex_valid
 
 /-- C02 `veLogspace_correct` for the GENERATED `variable_elimination_logspace` -/
 theorem gen_veLogspace_correct (d : Dom) (fs : List (Factor (LogOf K))) (elim : List Attr)
